@@ -131,20 +131,35 @@ Definition server_added : list string :=
 Definition hop_framing : list string := ["Content-Length"; "Transfer-Encoding"].
 
 (** model vs implementation on the projected observables *)
-Definition corr_e2e (m o : e2e_obs) : bool :=
-  Bool.eqb (x_got m) (x_got o) &&
-  (x_status m =? x_status o) &&
-  agree_on (keys (x_headers m)) (x_headers m) (x_headers o) &&
-  forallb (fun k => mem k (keys (x_headers m)) || mem k server_added) (keys (x_headers o)) &&
-  (* a Content-Length the gateway set must be the one on the wire; otherwise net/http chooses *)
-  match x_cl m with Some n => opt_eqb Z.eqb (Some n) (x_cl o) | None => true end &&
-  String.eqb (x_body m) (x_body o) && Bool.eqb (x_frame m) (x_frame o) &&
+Definition corr_backend (m o : e2e_obs) : bool :=
   (x_bcount m =? x_bcount o) &&
   String.eqb (x_bmethod m) (x_bmethod o) && String.eqb (x_btarget m) (x_btarget o) &&
   String.eqb (x_bhost m) (x_bhost o) &&
   agree_on (keys (x_bheaders m)) (x_bheaders m) (x_bheaders o) &&
   forallb (fun k => mem k (keys (x_bheaders m)) || mem k hop_framing) (keys (x_bheaders o)) &&
   String.eqb (x_bbody m) (x_bbody o).
+
+Definition corr_e2e (m o : e2e_obs) : bool :=
+  corr_backend m o &&
+  if negb (x_got m) then
+    (* the handler panicked: net/http closes the connection; depending on what had been
+       flushed the client sees nothing at all or a response whose framing is broken *)
+    negb (x_got o) || negb (x_frame o)
+  else
+  x_got o &&
+  (x_status m =? x_status o) &&
+  agree_on (keys (x_headers m)) (x_headers m) (x_headers o) &&
+  forallb (fun k => mem k (keys (x_headers m)) || mem k server_added) (keys (x_headers o)) &&
+  (* a Content-Length the gateway set must be the one on the wire; otherwise net/http chooses *)
+  match x_cl m with Some n => opt_eqb Z.eqb (Some n) (x_cl o) | None => true end &&
+  String.eqb (x_body m) (x_body o) && Bool.eqb (x_frame m) (x_frame o).
+
+(** headers the backend hop's own client (net/http transport) sets when the request has
+    none: they may appear at the backend although the client's header of that name was
+    removed as Connection-listed *)
+Definition hop_own (k : string) (vs : list string) : bool :=
+  (String.eqb k "Accept-Encoding" && strs_eqb vs ["gzip"]) ||
+  (String.eqb k "User-Agent" && strs_eqb vs ["Go-http-client/1.1"]).
 
 (** *** the property on observables *)
 Definition prop_e2e (c : e2e_case) (x : e2e_obs) : bool :=
@@ -164,7 +179,8 @@ Definition prop_e2e (c : e2e_case) (x : e2e_obs) : bool :=
       implb (negb (a_on ra)) (String.eqb (x_bbody x) (e_body c)) &&
       forallb (fun k =>
                  if mem k ["Content-Length"; "Host"] then true
-                 else if is_hop_for ch k then negb (h_has_exact k (x_bheaders x))
+                 else if is_hop_for ch k
+                      then negb (h_has_exact k (x_bheaders x)) || hop_own k (h_values_exact k (x_bheaders x))
                  else if String.eqb k CE && a_on ra then true
                  else strs_eqb (h_values_exact k (x_bheaders x)) (h_values_exact k ch))
               (keys ch) &&
